@@ -273,6 +273,24 @@ const simDictXML = `<?xml version="1.0" encoding="UTF-8"?>
       <answer><rule avp="Sim-Octets" required="false" max="1"/></answer>
     </command>
   </application>
+  <application id="1" type="auth" name="SimGrandParent">
+    <command code="922" short="NA" name="Sim-Grand-Alpha">
+      <request><rule avp="Sim-Octets" required="false" max="1"/></request>
+      <answer><rule avp="Sim-Octets" required="false" max="1"/></answer>
+    </command>
+  </application>
+  <application id="4" type="auth" name="SimParent">
+    <command code="920" short="PA" name="Sim-Parent-Alpha">
+      <request><rule avp="Sim-Octets" required="false" max="1"/></request>
+      <answer><rule avp="Sim-Octets" required="false" max="1"/></answer>
+    </command>
+  </application>
+  <application id="16777251" type="auth" name="SimChild">
+    <command code="921" short="SA" name="Sim-Child-Alpha">
+      <request><rule avp="Sim-Octets" required="false" max="1"/></request>
+      <answer><rule avp="Sim-Octets" required="false" max="1"/></answer>
+    </command>
+  </application>
   <application id="1002" type="acct" name="SimAppTwo">
     <command code="910" short="ZC" name="Sim-Two-Gamma">
       <request><rule avp="Sim-Octets" required="false" max="1"/></request>
@@ -295,6 +313,9 @@ type simCmd struct {
 var simCmds = []simCmd{
 	{0, 257, "CE"}, {0, 280, "DW"}, {0, 900, "XA"}, {0, 901, "XB"},
 	{1001, 900, "YA"}, {1001, 910, "YC"}, {1002, 910, "ZC"}, {1002, 8388700, "ZV"},
+	// application ids for which the library's AVP lookup knows a parent application
+	// (16777251 -> 4 -> 1): command lookup has no such notion
+	{1, 922, "NA"}, {4, 920, "PA"}, {16777251, 921, "SA"},
 }
 
 // simShort gives the short name the dictionary semantics assign to (app, code):
